@@ -132,6 +132,9 @@ def _shard(args):
         except _CaseTimeout:
             state["timed_out"] = True
             ctx.labels["case-time-cap-hit(inconclusive)"] += 1
+            if os.environ.get("VERIF_SLOW_LOG"):
+                with open(os.environ["VERIF_SLOW_LOG"], "a") as fh:
+                    fh.write(codec.dumps(case)[:20000] + "\n")
             return
         except HarnessError as e:
             state["harness"] = f"{e}\n{traceback.format_exc()}"
